@@ -383,3 +383,133 @@ theorem old_lot_cases (l : Lot) (F : Nat) :
         simp [hd, this]
 
 end Mx.Weekly
+
+namespace Mx.Weekly
+
+theorem bucketIdFor_dep (F : Nat) (dep : Energy) (l : Lot) (h1 : dep.getEnergyAmount = l.contrib)
+    (h2 : dep.totalLocked = l.T) :
+    bucketIdFor F dep =
+      if l.T = 0 then none else if l.contrib = 0 then none else some (l.contrib / l.T / 7 + F) := by
+  unfold bucketIdFor
+  rw [h1, h2]
+  rfl
+
+/-- **user update keeps the lot relation.**  After `update_user_energy_for_current_week` for
+    user `u0` with current energy `cur`, the global structure matches the progress table in
+    which `u0`'s entry is already replaced by `(cur, W)` (or removed when `cur` has no energy). -/
+theorem updateUser_GRel {g g' : St} {W u0 : Nat} {cur : Energy} (hW : 1 ≤ W) (hI : GInv g)
+    (h : updateUserEnergyForCurrentWeek g W cur (g.progress u0) = some g') :
+    (∃ orph, GRel (upd g.progress u0 (newOf cur W)) (usersAfter g.users u0 (newOf cur W)) g' orph) ∧
+    g'.lastGlobalUpdateWeek = W ∧ g'.progress = g.progress ∧ g'.users = g.users := by
+  rw [updateUserEnergyForCurrentWeek_eq] at h
+  simp only [updateGlobal, Option.bind_eq_bind, Option.bind_eq_some_iff, req_eq_some] at h
+  obtain ⟨g1, h1, _, _, ⟨g2, bp⟩, hre, g3, htk, hen⟩ := h
+  dsimp only at htk hen
+  obtain ⟨⟨o, hR⟩, hlgw, hprog, husers⟩ := performWeeklyUpdate_GRel hW hI h1
+  have hP : PRel g.progress g.users W := hlgw ▸ hR.p
+  have hL : LRel g.progress g.users g1.firstBucketId g1.buckets W (g1.totalEnergy W)
+      (g1.totalLocked W) o := by have := hR.l; rw [hlgw] at this; exact this
+  obtain ⟨hb1, hb2, hb3, hb4⟩ := prev_bridge (g.progress u0) W (fun p hp => (hP.pos u0 p hp).2)
+  obtain ⟨hbp, hbc, hfr, hbk⟩ := reallocate_spec hre
+  obtain ⟨t1, t2, t3, t4, t5, t6, t7, t8, t9⟩ := updateTotalTokens_spec htk
+  obtain ⟨n1, n2, n3, n4, n5, n6, n7, n8, n9⟩ := updateTotalEnergy_spec hen
+  obtain ⟨c1, c2, c3⟩ := cur_bridge cur W g1.firstBucketId
+  -- abbreviations
+  generalize hl0 : lotAt (g.progress u0) W = l0 at hb1 hb2 hb3 hb4
+  generalize hl1 : lotAt (newOf cur W) W = l1 at c1 c2 c3
+  generalize hprev : (prevOf (g.progress u0)).2 = prev at *
+  generalize hdep : depletedPrev prev W (prevOf (g.progress u0)).1 = dep at *
+  have hopt := bucketIdFor_dep g1.firstBucketId dep l0 hb1 hb2
+  obtain ⟨rT, oT, k1, k2, k3, k4, k5⟩ := old_lot_cases l0 g1.firstBucketId
+  rw [← hopt] at k2 k3 k4 k5
+  rw [← hbp] at k2 k3 k4 k5
+  rw [← hbc] at c2
+  have hz : ∀ (f : Lot → Nat), f ⟨0, 0, W⟩ = 0 →
+      usum (usersAfter g.users u0 (newOf cur W))
+        (fun u => f (lotAt (upd g.progress u0 (newOf cur W) u) W)) + f l0 =
+      usum g.users (fun u => f (lotAt (g.progress u) W)) + f l1 := by
+    intro f hf
+    have := usum_replace hP u0 (newOf cur W) f hf
+    rw [hl0, hl1] at this
+    exact this
+  have nl0 : ¬ (Lot.Live ⟨0, 0, W⟩) := fun h => by have := h.1; simp at this
+  have zc := hz Lot.contrib (by simp [Lot.contrib])
+  have zt := hz Lot.tok (by simp [Lot.tok, nl0])
+  refine ⟨⟨o + oT, ?_⟩, by rw [n7, t7, hfr.lgw, hlgw], by rw [n2, t2, hfr.progress, hprog],
+    by rw [n3, t3, hfr.users, husers]⟩
+  have hlgw' : g'.lastGlobalUpdateWeek = W := by rw [n7, t7, hfr.lgw, hlgw]
+  refine ⟨by rw [hlgw']; exact hW, by rw [hlgw']; exact hP.replace u0 cur, ?_, ?_⟩
+  · rw [hlgw']
+    refine ⟨?_, ?_, ?_, ?_⟩
+    · -- energy
+      have e1 : g3.totalEnergy W = g1.totalEnergy W := by rw [t4, hfr.totalEnergy]
+      have := hL.energy
+      omega
+    · -- tokens
+      have e1 : g2.totalLocked W = g1.totalLocked W := by rw [hfr.totalLocked]
+      have e2 : g'.totalLocked W = g3.totalLocked W := by rw [n4]
+      have := hL.tokens
+      have hA : (if bp.prev.isSome then dep.totalLocked else 0) = rT := by
+        cases hq : bp.prev with
+        | none => simp [k3 hq]
+        | some id => simp [hb2, (k2 (by simp [hq])).1]
+      have hB : (if bp.cur.isSome then cur.totalLocked else 0) = l1.tok := by
+        unfold Lot.tok
+        by_cases hlive : l1.Live
+        · simp [c2, hlive, (c3 hlive).1]
+        · simp [c2, hlive]
+      rw [hA, hB] at t9
+      omega
+    · intro d
+      rw [n1, t1, hfr.fb, n5, t5]
+      have zb := hz (fun l => l.bTok d) (by simp [Lot.bTok, nl0])
+      have hk := (hbk (g1.firstBucketId + d)).1
+      have hq := hL.bTok d
+      have h4 := k4 d
+      have hB : (if bp.cur = some (g1.firstBucketId + d) then cur.totalLocked else 0) = l1.bTok d := by
+        unfold Lot.bTok
+        by_cases hlive : l1.Live
+        · by_cases ho : l1.off = d
+          · simp [c2, hlive, ho, (c3 hlive).1]
+          · have : ¬ (g1.firstBucketId + l1.off = g1.firstBucketId + d) := by omega
+            simp [c2, hlive, ho, this]
+        · simp [c2, hlive]
+      rw [hB, hb3] at hk
+      by_cases hd0 : d = 0
+      · simp only [hd0, if_true] at *
+        omega
+      · simp only [hd0, if_false] at *
+        omega
+    · intro d
+      rw [n1, t1, hfr.fb, n5, t5]
+      have zb := hz (fun l => l.bSur d) (by simp [Lot.bSur, nl0])
+      have hk := (hbk (g1.firstBucketId + d)).2
+      have hq := hL.bSur d
+      have h5 := k5 d
+      have hB : (if bp.cur = some (g1.firstBucketId + d) then surplusFor cur else 0) = l1.bSur d := by
+        unfold Lot.bSur
+        by_cases hlive : l1.Live
+        · by_cases ho : l1.off = d
+          · simp [c2, hlive, ho, (c3 hlive).2]
+          · have : ¬ (g1.firstBucketId + l1.off = g1.firstBucketId + d) := by omega
+            simp [c2, hlive, ho, this]
+        · simp [c2, hlive]
+      have hA : (if bp.prev = some (g1.firstBucketId + d) then surplusFor prev else 0) =
+          (if bp.prev = some (g1.firstBucketId + d) then l0.sur else 0) := by
+        by_cases hq : bp.prev = some (g1.firstBucketId + d)
+        · have hT : 0 < l0.T := by
+            by_contra hc
+            have : l0.T = 0 := by omega
+            rw [hbp, hopt] at hq
+            simp [this] at hq
+          simp [hq, hb4 hT]
+        · simp [hq]
+      rw [hB, hA] at hk
+      omega
+  · intro w hw
+    rw [hlgw'] at hw
+    have hne : w ≠ W := by omega
+    rw [n8 w hne, t4, hfr.totalEnergy, n4, t8 w hne, hfr.totalLocked]
+    exact hR.fut w (by rw [hlgw]; exact hw)
+
+end Mx.Weekly
